@@ -172,14 +172,14 @@ Proof.
   intros z H. pose proof (parse_Z_fmt z) as P. rewrite H in P. discriminate.
 Qed.
 
-(* ---- a toy time codec over the RFC3339 alphabet: <ns>T<offset> *)
-Definition fmt_time_g (t : time) : str := fmt_int (t_ns t) ++ [x54] ++ fmt_int (t_off t).
+(* ---- a toy time codec over the RFC3339 alphabet: <ns>T<offset in minutes> *)
+Definition fmt_time_g (t : time) : str := fmt_int (t_ns t) ++ [x54] ++ fmt_int (t_off t / 60).
 
 Definition parse_time_g (s : str) : option time :=
   match index [x54] s with
   | None => None
   | Some i => match parse_Z (firstn i s), parse_Z (skipn (S i) s) with
-              | Some a, Some b => Some (mkTime a b)
+              | Some a, Some b => Some (mkTime a (b * 60))
               | _, _ => None
               end
   end.
@@ -187,14 +187,14 @@ Definition parse_time_g (s : str) : option time :=
 Lemma digit_or_minus_not_T : forall z, ~ In x54 (fmt_int z).
 Proof. intros z H. apply fmt_int_alpha in H. destruct H as [H|H]; [discriminate | cbn in H; lia]. Qed.
 
-Lemma time_ok_g : forall uq q pf ff t, time_ok (mkOracles uq q parse_time_g fmt_time_g pf ff) t.
+Lemma time_ok_g : forall uq q pf ff t, (t_off t mod 60 = 0)%Z -> time_ok (mkOracles uq q parse_time_g fmt_time_g pf ff) t.
 Proof.
-  intros uq q pf ff [ns off]. unfold time_ok. cbn [o_parse_time o_fmt_time]. unfold fmt_time_g. cbn [t_ns t_off]. repeat split.
+  intros uq q pf ff [ns off] Hm. unfold time_ok. cbn [o_parse_time o_fmt_time]. unfold fmt_time_g. cbn [t_ns t_off] in *. repeat split.
   - unfold parse_time_g. cbn [app]. rewrite index_single by apply digit_or_minus_not_T.
     rewrite firstn_app, firstn_all, Nat.sub_diag. cbn [firstn]. rewrite app_nil_r.
-    replace (skipn (S (length (fmt_int ns))) (fmt_int ns ++ x54 :: fmt_int off)) with (fmt_int off).
-    + rewrite !parse_Z_fmt. reflexivity.
-    + change (fmt_int ns ++ x54 :: fmt_int off) with (fmt_int ns ++ [x54] ++ fmt_int off). rewrite app_assoc.
+    replace (skipn (S (length (fmt_int ns))) (fmt_int ns ++ x54 :: fmt_int (off / 60))) with (fmt_int (off / 60)).
+    + rewrite !parse_Z_fmt. f_equal. f_equal. pose proof (Z.div_mod off 60 ltac:(lia)). lia.
+    + change (fmt_int ns ++ x54 :: fmt_int (off / 60)) with (fmt_int ns ++ [x54] ++ fmt_int (off / 60)). rewrite app_assoc.
       rewrite skipn_app. rewrite skipn_all2 by (rewrite app_length; cbn; lia).
       rewrite app_length. cbn [length]. replace (S (length (fmt_int ns)) - (length (fmt_int ns) + 1))%nat with 0%nat by lia. reflexivity.
   - intros H. apply app_eq_nil in H. destruct H as [H _]. exact (fmt_int_nonempty _ H).
@@ -204,6 +204,14 @@ Proof.
     + destruct Hc as [Hc|Hc]; [subst c; cbn; tauto|].
       apply fmt_int_alpha in Hc. destruct Hc as [Hc|Hc]; [subst c; cbn; tauto|].
       destruct c; cbn in Hc; try lia; cbn; tauto.
+  - exact Hm.
+Qed.
+
+Lemma parse_time_g_off : forall s t, parse_time_g s = Some t -> (t_off t mod 60 = 0)%Z.
+Proof.
+  intros s t. unfold parse_time_g. destruct (index [x54] s); [|discriminate].
+  destruct (parse_Z _); [|discriminate]. destruct (parse_Z _); [|discriminate].
+  intros H. inversion H. cbn [t_off]. apply Z.mod_mul. lia.
 Qed.
 
 (* ---- a toy float codec: the bit pattern in decimal *)
@@ -224,7 +232,7 @@ Lemma model_library_laws : oracle_laws model_library.
 Proof.
   constructor.
   - apply quote_laws_g.
-  - intros t _. apply time_ok_g.
+  - intros t Hd. apply time_ok_g. unfold time_dom in Hd. lia.
   - intros b _. apply float_ok_g.
 Qed.
 
@@ -232,7 +240,7 @@ Lemma model_library_accept_laws : accept_laws model_library.
 Proof.
   constructor.
   - apply quote_laws_g.
-  - intros s t _. apply time_ok_g.
+  - intros s t H. apply time_ok_g. exact (parse_time_g_off s t H).
   - intros s b _. apply float_ok_g.
 Qed.
 
